@@ -17,6 +17,9 @@ M = sys.modules
 
 
 def mod(name):
+    if name not in M:          # modules prtpy/__init__.py does not import itself (balanced.py)
+        import importlib
+        importlib.import_module(name)
     return M[name]
 
 
@@ -133,6 +136,7 @@ def enc_exc(e):
 PART_ALGOS = {
     "greedy": lambda: prtpy.partitioning.greedy,
     "roundrobin": lambda: prtpy.partitioning.roundrobin,
+    "bidir": lambda: mod("prtpy.partitioning.balanced").bidirectional_balanced,
     "multifit": lambda: prtpy.partitioning.multifit,
     "kk": lambda: prtpy.partitioning.kk,
     "cg": lambda: prtpy.partitioning.cg,
